@@ -932,6 +932,7 @@ func TestC46(t *testing.T) {
 	c46Clearsign(m, ks)
 	c46GPGClearsign(m, ks)
 	c46ClearsignSplits(m, ks)
+	c46ChunkedVerify(m, ks)
 	ks.verifyKeysUnchanged(m)
 	m.Count("gpg_calls_total", int(ks.g.calls.Load()))
 	m.Note("Text with a CR that is not part of a CRLF pair is outside RFC 4880 §7.1's wording (gpg strips it as trailing whitespace, clearsign.Decode keeps it): such cases are counted (clearsign_exotic_cr_cases, gpg_clearsign_exotic_cr_*) and judged only by reading-independent checks.")
@@ -957,4 +958,5 @@ func TestC46(t *testing.T) {
 	m.Gate("gpg_dearmor_calls", m.N(8, 300), "gpg --dearmor of armor.Encode output")
 	m.Gate("gpg_enarmor_calls", m.N(8, 300), "armor.Decode of gpg --enarmor output")
 	c46SplitGates(m)
+	c46ChunkedVerifyGates(m)
 }
